@@ -96,6 +96,13 @@ def gen_inputs(ctx):
             for net in ("main", "test"):
                 out.append(("Construct", {"route": "seed_bytes", "seed": B(seed), "net": net}, ("seed_bytes", n, net)))
                 out.append(("Construct", {"route": "seed_hex", "seed": B(seed), "net": net}, ("seed_hex", n, net)))
+    # seeds whose BYTES happen to be printable text (hex digits, decimal digits, base64, a sentence): a seed is bytes,
+    # whatever it looks like
+    for seed in (b"0123456789abcdef" * 8, b"0123456789abcdef" * 4, b"0123456789ABCDEF" * 2, b"7" * 64, b"ab" * 16, b"f" * 128,
+                 b"abandon abandon abandon abandon abandon abandon abandon abandon about", b"QUJDREVGR0hJSktMTU5PUFFSU1RVVldYWVo=" * 2,
+                 b"0x" + b"00" * 31, b"   padded   seed   bytes   here  "):
+        out.append(("Construct", {"route": "seed_bytes", "seed": B(seed), "net": "main"}, ("seed_bytes-looks-like-text", len(seed))))
+        out.append(("Construct", {"route": "seed_hex", "seed": B(seed), "net": "test"}, ("seed_hex-looks-like-text", len(seed))))
     # seeds that start (and end) with zero bytes, all-zero and all-0xff seeds: a seed is a byte string, not a number
     for seed in (b"\x00" + bytes(range(1, 64)), b"\x00\x00" + bytes(range(2, 64)), bytes(15) + b"\x01", bytes(63) + b"\x01",
                  bytes(range(1, 63)) + b"\x00\x00", bytes(64), bytes(16), b"\xff" * 64, b"\x00" + b"\xff" * 31):
